@@ -293,4 +293,211 @@ def FSys.abs (s : FSys V) : Sys V :=
          | none => s.g,
     lock := s.lock, pc := fun u => (s.pc u).abs, next := s.next, hist := s.hist, lin := s.lin }
 
+/-! ### the critical sections as PROGRAMS of micro-steps (what the Go functions do between `Lock()` and
+    the deferred `Unlock()`), the instance's model version counter, and its unlocked atomic read -/
+
+/-- what a client keeps locally inside its critical section -/
+structure Loc (V : Type) where
+  /-- what `i.Parameter(id)` / the producer lookup found -/
+  node : Option (Node V) := none
+  /-- `producer.Value()`: was the node outdated (does `process()` run) -/
+  run : Bool := false
+  /-- the entries `Process()` of the producer has pulled so far -/
+  es : List (Option V) := []
+  /-- the response being assembled from what the steps READ -/
+  out : Resp V := .err
+
+def Loc.isParam (l : Loc V) : Bool :=
+  match l.node with
+  | some (.param _ _) => true
+  | _ => false
+
+/-- the micro-steps of the three entry points between `Lock()` and the deferred `Unlock()` -/
+inductive MicroOp (V : Type) where
+  | lookup (p : Nat)             -- i.Parameter(nodeId): map scan + type assertion (panic → `err`, the rest does not run)
+  | bumpVersion (p : Nat)        -- ApplyMessage: pn.version++
+  | writeValue (p : Nat) (v : V) -- ApplyMessage: pn.appliedProfile = &val
+  | setOk                        -- ApplyMessage returned (true, nil)
+  | bumpModel                    -- i.incModelVersion()  (also after a rejected message)
+  | readValue (p : Nat)          -- ToMessage(): reads the parameter's value
+  | check (i : Nat)              -- producer.Value(): `if sn.Outdated()`
+  | pullStep                     -- one `.Value()` pull of the producer's Process(), as its strategy says
+  | store (i : Nat)              -- the rest of process(): store, version++, remember, clear the flag
+  | readCache (i : Nat)          -- `return sn.value`
+
+abbrev Shared (V : Type) := Graph V × Nat      -- node graph, Instance.movelVersion
+
+/-- semantics of one micro-step on the CURRENT shared state and the client's local state -/
+def exec (F : Nat) : MicroOp V → Shared V × Loc V → Shared V × Loc V
+  | .lookup p, ((g, mv), l) => ((g, mv), { l with node := some (g p) })
+  | .bumpVersion p, ((g, mv), l) =>
+    if l.isParam then
+      match g p with
+      | .param x n => ((g.set p (.param x (n+1)), mv), l)
+      | .struct _ => ((g, mv), l)
+    else ((g, mv), l)
+  | .writeValue p v, ((g, mv), l) =>
+    if l.isParam then
+      match g p with
+      | .param _ n => ((g.set p (.param v n), mv), l)
+      | .struct _ => ((g, mv), l)
+    else ((g, mv), l)
+  | .setOk, (sh, l) => if l.isParam then (sh, { l with out := .ok }) else (sh, l)
+  | .bumpModel, ((g, mv), l) => if l.isParam then ((g, mv + 1), l) else ((g, mv), l)
+  | .readValue p, ((g, mv), l) =>
+    if l.isParam then
+      match g p with
+      | .param x _ => ((g, mv), { l with out := .val x })
+      | .struct _ => ((g, mv), l)
+    else ((g, mv), l)
+  | .check i, ((g, mv), l) =>
+    match g i with
+    | .struct s => ((g, mv), { l with node := some (g i), run := Outdated F g i,
+                                      es := List.replicate s.deps.length none })
+    | .param _ _ => ((g, mv), { l with node := some (g i), run := false })
+  | .pullStep, ((g, mv), l) =>
+    if l.run then
+      match l.node with
+      | some (.struct s) =>
+        match s.next s.scalars s.arrays l.es with
+        | none => ((g, mv), l)
+        | some k =>
+          match s.deps[k]? with
+          | none => ((g, mv), l)
+          | some d => (((Eval F g d).1, mv), { l with es := l.es.set k (some (val (Eval F g d).1 d)) })
+      | _ => ((g, mv), l)
+    else ((g, mv), l)
+  | .store i, ((g, mv), l) =>
+    if l.run then
+      match l.node with
+      | some (.struct s) => ((g.set i (.struct (s.executed g l.es)), mv), l)
+      | _ => ((g, mv), l)
+    else ((g, mv), l)
+  | .readCache i, ((g, mv), l) => ((g, mv), { l with out := .val (val g i) })
+
+def runProg (F : Nat) (ops : List (MicroOp V)) (x : Shared V × Loc V) : Shared V × Loc V :=
+  ops.foldl (fun a op => exec F op a) x
+
+/-- number of `.Value()` pulls the producer's `Process()` may make: one per dependency slot -/
+def pulls (g : Graph V) (i : Nat) : Nat :=
+  match g i with
+  | .struct s => s.deps.length
+  | .param _ _ => 0
+
+/-- the PROGRAM of a call (the `Artifact` one is as long as the producer has dependency slots in
+    the state found at `Lock()`) -/
+def progOf (g : Graph V) : Call V → List (MicroOp V)
+  | .update p v => [.lookup p, .bumpVersion p, .writeValue p v, .setOk, .bumpModel]
+  | .updateRejected p => [.lookup p, .bumpModel]
+  | .paramData p => [.lookup p, .readValue p]
+  | .artifact i => .check i :: (List.replicate (pulls g i) .pullStep ++ [.store i, .readCache i])
+
+/-- does the call bump the instance's model version counter -/
+def bump (g : Graph V) : Call V → Nat
+  | .update p _ => match g p with | .param _ _ => 1 | .struct _ => 0
+  | .updateRejected p => match g p with | .param _ _ => 1 | .struct _ => 0
+  | _ => 0
+
+/-! ### the fine-grained locked system whose critical sections are PROGRAMS of micro-steps -/
+
+inductive PPc (V : Type) where
+  | idle
+  | invoked (id : Nat) (c : Call V)
+  /-- inside the critical section: ghost `start`, `mv0` (shared state found at `Lock()`), the local
+      state, the micro-steps still to do -/
+  | crit (id : Nat) (c : Call V) (start : Graph V) (mv0 : Nat) (loc : Loc V) (todo : List (MicroOp V))
+  | unlocked (id : Nat) (c : Call V) (r : Resp V)
+  /-- `ModelVersion()` called WITHOUT the lock (hub goroutine, `/started`); ghost: counter at the call -/
+  | mvWait (mv0 : Nat)
+  /-- its atomic load has happened (value `v`), not yet returned -/
+  | mvGot (mv0 v : Nat)
+
+structure PSys (V : Type) where
+  g : Graph V
+  mv : Nat
+  lock : Option Tid
+  pc : Tid → PPc V
+  next : Nat
+  hist : List (Event V)
+  lin : List (LOp V)
+  /-- ghost: per completed unlocked `ModelVersion()` call (counter at the call, value returned, counter at return) -/
+  obs : List (Nat × Nat × Nat)
+
+def PSys.init (g0 : Graph V) : PSys V :=
+  { g := g0, mv := 0, lock := none, pc := fun _ => .idle, next := 0, hist := [], lin := [], obs := [] }
+
+/-- one step of one client.  `acquire` = `producerLock.Lock()` (where the lock facts put it: before
+    any access); the program of the call is fixed by the state found there; `micro` = the next
+    micro-step of the program, on the CURRENT shared state; `finish` = the program is done: the
+    response is what the steps assembled, the deferred `Unlock()` runs.  `mvCall/mvLoad/mvReturn`:
+    the unlocked atomic read of the model version. -/
+inductive PStep (F : Nat) : PSys V → PSys V → Prop
+  | invoke (s : PSys V) (t : Tid) (c : Call V) : s.pc t = .idle →
+      PStep F s ({ s with pc := upd s.pc t (.invoked s.next c), next := s.next + 1,
+                          hist := s.hist ++ [.inv s.next t c] } : PSys V)
+  | acquire (s : PSys V) (t : Tid) (id : Nat) (c : Call V) : s.pc t = .invoked id c → s.lock = none →
+      PStep F s ({ s with lock := some t, pc := upd s.pc t (.crit id c s.g s.mv {} (progOf s.g c)) } : PSys V)
+  | micro (s : PSys V) (t : Tid) (id : Nat) (c : Call V) (start : Graph V) (mv0 : Nat) (loc : Loc V)
+      (op : MicroOp V) (todo : List (MicroOp V)) : s.pc t = .crit id c start mv0 loc (op :: todo) →
+      PStep F s ({ s with g := (exec F op ((s.g, s.mv), loc)).1.1, mv := (exec F op ((s.g, s.mv), loc)).1.2,
+                          pc := upd s.pc t (.crit id c start mv0 (exec F op ((s.g, s.mv), loc)).2 todo) } : PSys V)
+  | finish (s : PSys V) (t : Tid) (id : Nat) (c : Call V) (start : Graph V) (mv0 : Nat) (loc : Loc V) :
+      s.pc t = .crit id c start mv0 loc [] →
+      PStep F s ({ s with lock := none, pc := upd s.pc t (.unlocked id c loc.out),
+                          lin := s.lin ++ [⟨id, t, c, loc.out⟩] } : PSys V)
+  | respond (s : PSys V) (t : Tid) (id : Nat) (c : Call V) (r : Resp V) : s.pc t = .unlocked id c r →
+      PStep F s ({ s with pc := upd s.pc t .idle, hist := s.hist ++ [.resp id r] } : PSys V)
+  | mvCall (s : PSys V) (t : Tid) : s.pc t = .idle →
+      PStep F s ({ s with pc := upd s.pc t (.mvWait s.mv) } : PSys V)
+  | mvLoad (s : PSys V) (t : Tid) (mv0 : Nat) : s.pc t = .mvWait mv0 →
+      PStep F s ({ s with pc := upd s.pc t (.mvGot mv0 s.mv) } : PSys V)
+  | mvReturn (s : PSys V) (t : Tid) (mv0 v : Nat) : s.pc t = .mvGot mv0 v →
+      PStep F s ({ s with pc := upd s.pc t .idle, obs := s.obs ++ [(mv0, v, s.mv)] } : PSys V)
+
+inductive PExec (F : Nat) (g0 : Graph V) : PSys V → Prop
+  | init : PExec F g0 (PSys.init g0)
+  | step {s s' : PSys V} : PExec F g0 s → PStep F s s' → PExec F g0 s'
+
+def PPc.isCrit : PPc V → Bool
+  | .crit _ _ _ _ _ _ => true
+  | _ => false
+
+def PPc.start? : PPc V → Option (Graph V)
+  | .crit _ _ start _ _ _ => some start
+  | _ => none
+
+/-- abstraction to the atomic system: a client inside its critical section is `holding`, an
+    unlocked `ModelVersion()` reader is `idle` (it takes no part in the three-call histories) -/
+def PPc.abs : PPc V → Pc V
+  | .idle => .idle
+  | .invoked id c => .invoked id c
+  | .crit id c _ _ _ _ => .holding id c
+  | .unlocked id c r => .unlocked id c r
+  | .mvWait _ => .idle
+  | .mvGot _ _ => .idle
+
+def PSys.abs (s : PSys V) : Sys V :=
+  { g := match s.lock with
+         | some t => ((s.pc t).start?).getD s.g
+         | none => s.g,
+    lock := s.lock, pc := fun u => (s.pc u).abs, next := s.next, hist := s.hist, lin := s.lin }
+
+structure PInv (F : Nat) (s : PSys V) : Prop where
+  mutex : ∀ t, (s.pc t).isCrit = true → s.lock = some t
+  locked : ∀ t, s.lock = some t → (s.pc t).isCrit = true
+  /-- what is still to do, run from the current state, is the whole program run from the state
+      found at `Lock()`: nobody else has touched the shared state in between -/
+  prog : ∀ t id c start mv0 loc todo, s.pc t = .crit id c start mv0 loc todo →
+    runProg F todo ((s.g, s.mv), loc) = runProg F (progOf start c) ((start, mv0), {})
+  wait : ∀ t mv0, s.pc t = .mvWait mv0 → mv0 ≤ s.mv
+  got : ∀ t mv0 v, s.pc t = .mvGot mv0 v → mv0 ≤ v ∧ v ≤ s.mv
+  obs : ∀ o ∈ s.obs, o.1 ≤ o.2.1 ∧ o.2.1 ≤ o.2.2
+
+
+/-- the model-version bumps of a sequential run -/
+def bumpsAlong (F : Nat) (g : Graph V) : List (Call V) → Nat
+  | [] => 0
+  | c :: cs => bump g c + bumpsAlong F (seqStep F g c).1 cs
+
+
 end PolyVerif.Linz
